@@ -454,7 +454,10 @@ class Fetcher:
 
         for x in self._pending_tasks:
             x.cancel()
-            await x
+            # A task cancelled outside of `client.send` (e.g. during its retry
+            # backoff) finishes with CancelledError; that must not abort close()
+            with contextlib.suppress(asyncio.CancelledError):
+                await x
 
     def _notify(self, future):
         if future is not None and not future.done():
